@@ -70,6 +70,7 @@ def check(run):
     run.attempt(registry, run, p, km)
     run.attempt(count, run, p)
     run.attempt(mirrors, run, p)
+    run.attempt(verdicts, run, p, km)
     run.attempt(sem, run, p, km)
     run.attempt(fuzz, run, p, km)
     from .common import keyorder_rule
@@ -324,6 +325,127 @@ def mirrors(run, p):
     run.floor('C02-MIRROR', n, 9)
 
 
+def verdicts(run, p, km):
+    """every base verifier evaluated with stand-in statistics against the documented meaning of its constraint"""
+    import datetime as dt
+    run.rule('C02-VERDICT', 'each verifier, evaluated with stand-in statistics on a grid of (constraint value, column statistic) pairs on '
+                            'both sides of every boundary, returns the documented verdict: min/max closed (>=, <=), open (>, <) and '
+                            'fuzzy (within the tolerance), dates always closed, null bound or empty column satisfied; lengths '
+                            'inclusive and only for strings; the six sign classes on the deciding extreme; max_nulls inclusive; '
+                            'no_duplicates distinct == non-null; a missing column fails')
+    eps = p.const('tdda.constraints.baseconstraints', 'EPSILON_DEFAULT') if 'EPSILON_DEFAULT' in p.mod('tdda.constraints.baseconstraints').consts else None
+    if not isinstance(eps, (int, float)):
+        try:
+            eps = p.const('tdda.constraints.base', 'EPSILON_DEFAULT')
+        except AnalysisError:
+            eps = 0.0
+    eps0 = eps
+    n = 0
+
+    def report(kind, ver, bad, count):
+        run.ob('C02-VERDICT', '%s::%s::grid' % (ver.rel, ver.short), not bad,
+               '%s over %d cases%s' % (kind, count, '' if not bad else '; wrong for %s: verdict %r, documented %r' % bad[0]), fn=ver)
+    vals = [-5, -1, 0, 1, 5, 100, 2.5]
+    for kind, stat in (('min', 'calc_min'), ('max', 'calc_max')):
+        ver = km[kind][0]
+        bad = []
+        k = 0
+        for prec, eps in [(pr, e_) for pr in (None, 'closed', 'open', 'fuzzy') for e_ in ((eps0, 0.01) if pr in (None, 'fuzzy') else (eps0,))]:
+            for v in vals + [None]:
+                near = [v * (1 - 0.5 * eps), v * (1 + 0.5 * eps), v * (1 - 2 * eps), v * (1 + 2 * eps)] if isinstance(v, (int, float)) and v and eps else []
+                for a in vals + [None] + near:
+                    got = eval_verifier(p, ver, kind, v, {stat: a, 'calc_tdda_type': 'real'}, precision=prec, epsilon=eps)
+                    k += 1
+                    if v is None or a is None:
+                        want = True
+                    elif prec == 'closed':
+                        want = a >= v if kind == 'min' else a <= v
+                    elif prec == 'open':
+                        want = a > v if kind == 'min' else a < v
+                    else:
+                        lim = _spec_fuzz('fuzz_down' if kind == 'min' else 'fuzz_up', v, eps)
+                        want = (a >= v or a >= lim) if kind == 'min' else (a <= v or a <= lim)
+                    if bool(got) != want or isinstance(got, str):
+                        bad.append(('precision=%r epsilon=%r value=%r column %s=%r' % (prec, eps, v, kind, a), got, want))
+        d0 = dt.datetime(2020, 1, 1)
+        for prec in (None, 'open', 'fuzzy'):
+            for dv, da in ((0, 0), (0, 1), (1, 0)):
+                v, a = d0 + dt.timedelta(days=dv), d0 + dt.timedelta(days=da)
+                got = eval_verifier(p, ver, kind, v, {stat: a, 'calc_tdda_type': 'date'}, precision=prec)
+                k += 1
+                want = a >= v if kind == 'min' else a <= v
+                if bool(got) != want or isinstance(got, str):
+                    bad.append(('precision=%r date value=%s column %s=%s' % (prec, v.date(), kind, a.date()), got, want))
+        got = eval_verifier(p, ver, kind, 1, {stat: 1, 'column_exists': False})
+        k += 1
+        if got is not False:
+            bad.append(('a missing column', got, False))
+        n += k
+        report(kind, ver, bad, k)
+    for kind, stat in (('min_length', 'calc_min_length'), ('max_length', 'calc_max_length')):
+        ver = km[kind][0]
+        bad = []
+        k = 0
+        for typ in ('string', 'int'):
+            for v in (0, 1, 3, None):
+                for a in (0, 1, 2, 3, 4, None):
+                    got = eval_verifier(p, ver, kind, v, {stat: a, 'calc_tdda_type': typ})
+                    k += 1
+                    if v is None:
+                        want = True
+                    elif typ != 'string':
+                        want = False
+                    elif a is None:
+                        want = True
+                    else:
+                        want = a >= v if kind == 'min_length' else a <= v
+                    if bool(got) != want or isinstance(got, str):
+                        bad.append(('type=%s value=%r column %s=%r' % (typ, v, kind, a), got, want))
+        n += k
+        report(kind, ver, bad, k)
+    ver = km['sign'][0]
+    bad = []
+    k = 0
+    for sign in ('positive', 'non-negative', 'zero', 'non-positive', 'negative', 'null', None):
+        for m, M in ((1, 5), (0, 5), (0, 0), (-5, 0), (-5, -1), (-5, 5), (None, None), (0.5, 0.5), (-0.0, 0.0)):
+            got = eval_verifier(p, ver, 'sign', sign, {'calc_min': m, 'calc_max': M})
+            k += 1
+            if sign is None or m is None:
+                want = True
+            else:
+                want = {'positive': m > 0, 'non-negative': m >= 0, 'zero': m == 0 and M == 0, 'non-positive': M <= 0,
+                        'negative': M < 0, 'null': False}[sign]
+            if bool(got) != want or isinstance(got, str):
+                bad.append(('sign=%r min=%r max=%r' % (sign, m, M), got, want))
+    n += k
+    report('sign', ver, bad, k)
+    ver = km['max_nulls'][0]
+    bad = []
+    k = 0
+    for v in (0, 1, 3, None):
+        for a in (0, 1, 2, 3, 4):
+            got = eval_verifier(p, ver, 'max_nulls', v, {'calc_null_count': a})
+            k += 1
+            want = True if v is None else a <= v
+            if bool(got) != want or isinstance(got, str):
+                bad.append(('value=%r nulls=%r' % (v, a), got, want))
+    n += k
+    report('max_nulls', ver, bad, k)
+    ver = km['no_duplicates'][0]
+    bad = []
+    k = 0
+    for v in (True, False, None):
+        for nu, nn in ((0, 0), (3, 3), (2, 3), (1, 5), (5, 5)):
+            got = eval_verifier(p, ver, 'no_duplicates', v, {'calc_nunique': nu, 'calc_non_null_count': nn})
+            k += 1
+            want = True if not v else nu == nn
+            if bool(got) != want or isinstance(got, str):
+                bad.append(('value=%r distinct=%r non-null=%r' % (v, nu, nn), got, want))
+    n += k
+    report('no_duplicates', ver, bad, k)
+    run.floor('C02-VERDICT', n, 700)
+
+
 def sem(run, p, km):
     run.rule('C02-SEM', 'the verifiers\' decision tables equal the documented truth tables: min/max x {closed, open, fuzzy}; sign '
                         'classes on the deciding aggregate (min for positive/non-negative, max for negative/non-positive, both for zero); '
@@ -405,11 +527,25 @@ def sem(run, p, km):
     run.ob('C02-SEM', '%s::%s::all-distinct' % (ver.rel, ver.short), ok,
            'no_duplicates decides `%s`' % (norm(t[0][3].value) if t else None), fn=ver)
     ver = km['allowed_values'][0]
-    src = ast.unparse(ver.node).replace(' ', '').replace('\n', '')
-    ok = 'set(actual_values)-set(allowed_values)-set(exclusions)' in src and 'result=len(violations)==0' in src
+    bad = []
+    nv = 0
+    for actual in ([], ['a'], ['a', 'b'], ['b', 'c'], ['a', 'b', 'c'], ['x'], [None, 'a'], ['', 'a']):
+        for allowed in (None, [], ['a'], ['a', 'b'], ['a', 'b', 'c', 'd']):
+            for excl in (None, [], ['x'], [None]):
+                for detect in (False,):
+                    got = eval_verifier(p, ver, 'allowed_values', allowed, {'calc_unique_values': list(actual), 'calc_nunique': len(actual),
+                                                                             'allowed_values_exclusions': excl}, detect=detect)
+                    nv += 1
+                    want = True if allowed is None else not (set(actual) - set(allowed) - set(excl or []))
+                    # more distinct values than allowed values cannot fit, whatever the exclusions say: the documented shortcut
+                    if allowed is not None and len(actual) > len(allowed):
+                        want = False
+                    if got is not want and not (bool(got) == want and not isinstance(got, str)):
+                        bad.append((actual, allowed, excl, got, want))
     n += 1
-    run.ob('C02-SEM', '%s::%s::subset' % (ver.rel, ver.short), ok,
-           'allowed_values: violations = actual - allowed - exclusions; satisfied iff none', fn=ver)
+    run.ob('C02-SEM', '%s::%s::subset' % (ver.rel, ver.short), not bad,
+           'allowed_values over %d (values present, values allowed, exclusions): satisfied iff every value present is allowed or excluded%s' % (
+               nv, '' if not bad else '; wrong for present=%r allowed=%r exclusions=%r: %r instead of %r' % bad[0]), fn=ver)
     # rex: each expression is compiled and matched on its own (backreferences and group numbers stay local)
     crc = p.method('PandasConstraintCalculator', 'calc_rex_constraint')
     comps = [x for x in ast.walk(crc.node) if isinstance(x, ast.Call) and norm(x.func) == 're.compile']
@@ -484,6 +620,45 @@ def type_table(run, p, ver):
                n, '' if not bad else '; wrong for e.g. mode=%s allowed=%s actual=%s non-integers=%s booleans=%s: %r instead of %r' % bad[0]),
            fn=ver, detail={'wrong': bad[:5]} if bad else None)
     return n
+
+
+def eval_verifier(p, ver, kind, value, stubs, detect=False, epsilon=None, **attrs):
+    """one verify_<kind>_constraint of the base verifier, evaluated on a constraint with the value given, the statistics
+    answered by stubs (calc_* / get_* name -> value)"""
+    import datetime as dt
+    from ..pyeval import Interp, Obj, Unsupported, Raised
+    vc = p.cls('BaseConstraintVerifier')
+    I = Interp(p, consts={'unicode_string': str, 'byte_string': bytes, 'long_type': int})
+    I.safe_modules = {'datetime'}
+    I.extra_names['datetime'] = dt
+
+    def hook(mth, args, kwargs, selfobj):
+        if mth.name in stubs:
+            return True, stubs[mth.name]
+        if mth.name == 'is_null':
+            return True, args[0] is None
+        if mth.name == 'column_exists':
+            return True, stubs.get('column_exists', True)
+        if mth.name == 'types_compatible':
+            a, b = args[0], args[1]
+            num = (bool, int, float)
+            return True, (isinstance(a, num) and isinstance(b, num)) or type(a) is type(b)
+        if mth.name == 'to_datetime':
+            return True, args[0]
+        if mth.name.startswith('detect_'):
+            return True, None
+        return False, None
+    I.on_call = hook
+    v = Obj(vc)
+    c = Obj(p.cls('Constraint'))
+    c.attrs.update(kind=kind, value=value, **attrs)
+    try:
+        I.call(vc.methods['__init__'], [], {'epsilon': epsilon}, selfobj=v)
+        return I.call(ver, ['f', c], {'detect': detect}, selfobj=v)
+    except Raised as e:
+        return 'raises: %s' % e
+    except Unsupported as e:
+        raise AnalysisError('%s is not evaluable: %s' % (ver.short, e))
 
 
 def fuzz(run, p, km):
